@@ -24,6 +24,7 @@ import (
 
 type c06Problem struct {
 	Kind string
+	Obj  string // the object the problem is about
 	Msg  string
 }
 
@@ -32,11 +33,13 @@ func c06IsPkg(o *rkObj) bool { return o.OID.NewTime == 1 }
 // c06Check recomputes the graph invariants over a snapshot.
 func c06Check(sn *rkSnap) []c06Problem {
 	var out []c06Problem
-	add := func(kind, f string, a ...any) { out = append(out, c06Problem{kind, fmt.Sprintf(f, a...)}) }
+	subject := ""
+	add := func(kind, f string, a ...any) { out = append(out, c06Problem{kind, subject, fmt.Sprintf(f, a...)}) }
 	incoming := map[string]int{}
 	succ := map[string][]string{}
 	for _, id := range sn.Order {
 		o := sn.Objs[id]
+		subject = id
 		if !rkHashOK(o) {
 			add("hash", "object %s (%T): stored hash %x is not the hash of the stored bytes", id, o.Obj, o.Hash)
 		}
@@ -55,6 +58,7 @@ func c06Check(sn *rkSnap) []c06Problem {
 			}
 			incoming[tid]++
 			succ[id] = append(succ[id], tid)
+			subject = tid
 			esc := t.Obj.GetObjectInfo().IsEscaped
 			if rv.Hash.IsZero() {
 				if !esc {
@@ -76,6 +80,7 @@ func c06Check(sn *rkSnap) []c06Problem {
 	for _, id := range sn.Order {
 		o := sn.Objs[id]
 		oi := o.Obj.GetObjectInfo()
+		subject = id
 		if c06IsPkg(o) {
 			if oi.RefCount != 1 || !oi.OwnerID.IsZero() {
 				add("refcount", "package value %s has RefCount %d owner %s", id, oi.RefCount, oi.OwnerID)
@@ -92,7 +97,7 @@ func c06Check(sn *rkSnap) []c06Problem {
 		if !oi.OwnerID.IsZero() {
 			ow := sn.Objs[oi.OwnerID.String()]
 			if ow == nil {
-				add("owner", "object %s (%T): owner %s is not persisted", id, o.Obj, oi.OwnerID)
+				add("owner-stale", "object %s (%T): owner %s is not persisted", id, o.Obj, oi.OwnerID)
 			} else {
 				holds := false
 				for _, rv := range ow.Refs {
@@ -101,7 +106,7 @@ func c06Check(sn *rkSnap) []c06Problem {
 					}
 				}
 				if !holds {
-					add("owner", "object %s (%T): recorded owner %s (%T) holds no reference to it", id, o.Obj, oi.OwnerID, ow.Obj)
+					add("owner-stale", "object %s (%T): recorded owner %s (%T) holds no reference to it", id, o.Obj, oi.OwnerID, ow.Obj)
 				}
 			}
 		}
@@ -160,6 +165,7 @@ func c06Check(sn *rkSnap) []c06Problem {
 		}
 		for _, id := range un {
 			if !excused[id] {
+				subject = id
 				add("unreachable", "object %s (%T) is neither reachable from a package nor held by a reference cycle (RefCount %d)", id, sn.Objs[id].Obj, sn.Objs[id].Obj.GetObjectInfo().RefCount)
 			}
 		}
@@ -248,6 +254,16 @@ func (t *c06Track) observe(sn *rkSnap) {
 		t.maxRC = map[string]int{}
 		t.owner = map[string]string{}
 	}
+	// sole referrer of every singly referenced object
+	refBy := map[string]string{}
+	nref := map[string]int{}
+	for _, id := range sn.Order {
+		for _, rv := range sn.Objs[id].Refs {
+			tid := rv.ObjectID.String()
+			nref[tid]++
+			refBy[tid] = id
+		}
+	}
 	cross := 0
 	for _, id := range sn.Order {
 		o := sn.Objs[id]
@@ -265,12 +281,15 @@ func (t *c06Track) observe(sn *rkSnap) {
 			t.Unshare++
 			t.maxRC[id] = -1 << 30
 		}
-		ow := oi.OwnerID.String()
-		zero := (gnolang.ObjectID{}).String()
-		if prev, ok := t.owner[id]; ok && prev != ow && ow != zero && prev != zero {
+		// moved: singly referenced before and after, by a different referrer
+		cur := ""
+		if nref[id] == 1 {
+			cur = refBy[id]
+		}
+		if prev, ok := t.owner[id]; ok && prev != "" && cur != "" && prev != cur {
 			t.Moved++
 		}
-		t.owner[id] = ow
+		t.owner[id] = cur
 		for _, rv := range o.Refs {
 			if rv.ObjectID.PkgID != o.OID.PkgID && !rv.ObjectID.PkgID.IsImmutablePkg() {
 				cross++
@@ -284,8 +303,12 @@ func (t *c06Track) observe(sn *rkSnap) {
 
 var c06Debug = os.Getenv("C06_DEBUG") != ""
 
-// c06Known maps a problem to a known-finding key ("" = none).
-func c06Known(p c06Problem) string { return "" }
+// c06KeyStaleOwner: a divergence of the unchanged tree. When the only
+// referrer of a singly-owned object is replaced by another object in the same
+// transaction (e.g. append re-allocates the backing array of a slice whose
+// elements are objects), the object keeps the OwnerID of the old, deleted
+// parent; the new parent may then embed an outdated hash of it.
+const c06KeyStaleOwner = "owner-id-stale-after-reparenting"
 
 // c06After runs the checker after one transaction.
 func c06After(ctx *vk.Ctx, ch *rkChain, tr *c06Track, where string) error {
@@ -295,13 +318,22 @@ func c06After(ctx *vk.Ctx, ch *rkChain, tr *c06Track, where string) error {
 	}
 	tr.observe(sn)
 	probs := c06Check(sn)
+	stale := map[string]bool{}
+	for _, p := range probs {
+		if p.Kind == "owner-stale" {
+			stale[p.Obj] = true
+		}
+	}
 	var bad []string
 	for _, p := range probs {
 		if strings.HasPrefix(p.Kind, "obs:") {
 			ctx.Class(p.Kind)
 			continue
 		}
-		if k := c06Known(p); k != "" && ctx.Known(k) {
+		// the stale owner itself, and the outdated hash of exactly such an
+		// object inside its new parent, are the known divergence
+		if (p.Kind == "owner-stale" || (p.Kind == "child-hash" && stale[p.Obj])) && ctx.Known(c06KeyStaleOwner) {
+			ctx.Class("known:" + p.Kind)
 			continue
 		}
 		bad = append(bad, p.Kind+": "+p.Msg)
@@ -608,9 +640,29 @@ type c06Case struct {
 
 var c06OpsA = []string{"N%d", "N%d", "x%d", "L%d%d", "L%d%d", "S%d%d", "S%d%d", "S%d%d", "Z%d", "Z%d", "l%d%d", "l%d%d", "r%d%d", "g%d%d", "h%d%d", "d%d", "K%d%d", "K%d%d", "k%d", "c%d", "j%d%d",
 	"M%d%dk", "M%d%dq", "m%dk", "n%d%dk", "A%d%d", "C%d%d", "a%d", "V%d%d", "T%d%d1", "P%dk", "P%dq", "pk", "q%dk", "E%d", "e", "f", "R%d%d", "F%d", "G"}
+// macro ops: {a},{b} registers, {s},{t} slots, drawn once per macro
+var c06Macros = []string{
+	"L{a}{s};S{t}{a}",            // share: a second root reference
+	"L{a}{s};Z{s};S{t}{a}",       // move: detach and re-attach within one tx
+	"L{a}{s};g{b}{a};d{a};S{t}{b}", // pull a child out of its parent and attach it to a root
+	"L{a}{s};L{b}{t};l{a}{b};l{b}{a}", // cycle between two rooted nodes
+	"N{a};N{b};l{a}{b};l{b}{a};S{s}{a}", // fresh cycle, rooted
+	"Z{s};Z{t}",                  // drop roots (un-share / delete / leak a cycle)
+	"L{a}{s};E{a};Z{s}",          // move from a slot into the Keep slice
+	"N{a};E{a}",                  // append a fresh singly-owned element
+	"e;e",                        // pop
+}
+
 var c06OpsB = []string{"G%d%d", "G%d%d", "g%d", "w%d", "W%d%d", "u%d", "I%d", "I%d", "i%d", "n%d%d", "N%d%d", "o%d%d", "y%d%d", "y%d%d", "Y%d", "z%d%d"}
 
-func c06DrawOp(rt *rapid.T, tbl []string) string {
+func c06DrawOp(rt *rapid.T, tbl []string, macros bool) string {
+	if macros && rapid.IntRange(0, 3).Draw(rt, "macro") == 0 {
+		m := rapid.SampledFrom(c06Macros).Draw(rt, "mop")
+		for _, v := range []string{"{a}", "{b}", "{s}", "{t}"} {
+			m = strings.ReplaceAll(m, v, strconv.Itoa(rapid.IntRange(0, 3).Draw(rt, "marg")))
+		}
+		return m
+	}
 	f := rapid.SampledFrom(tbl).Draw(rt, "op")
 	n := strings.Count(f, "%d")
 	args := make([]any, n)
@@ -632,7 +684,7 @@ func c06Draw(rt *rapid.T) c06Case {
 		nops := rapid.IntRange(1, 8).Draw(rt, "nops")
 		var ops []string
 		for j := 0; j < nops; j++ {
-			ops = append(ops, c06DrawOp(rt, tbl))
+			ops = append(ops, c06DrawOp(rt, tbl, !tx.B))
 		}
 		if rapid.IntRange(0, 11).Draw(rt, "boom") == 0 {
 			ops = append(ops, "X")
@@ -677,7 +729,7 @@ func c06Exec(ctx *vk.Ctx, c c06Case) error {
 				ctx.Class("tx-failed-not-by-design")
 			}
 		}
-		if strings.Contains(tx.Prog, "Z") && strings.Contains(tx.Prog, "S") && strings.Contains(tx.Prog, "L") {
+		if strings.Contains(tx.Prog, "Z") && strings.Contains(tx.Prog, "S") && strings.Contains(tx.Prog, "L") && r.Error == nil {
 			sameTx++
 		}
 		if err := c06After(ctx, ch, tr, fmt.Sprintf("after tx %d (%s.Exec(%q), failed=%v)", i, path, tx.Prog, r.Error != nil)); err != nil {
